@@ -237,6 +237,7 @@ func checkC09(c *Ctx) {
 	r.Rule("C09/NOBLOCK", "no enforcer rendezvous, channel operation or lock re-acquisition is reachable while a store/mailbox/bucket lock is held")
 	r.Rule("C09/GUARD/file", "file.Store methods call mbox methods only under the bucket lock (write mode if the callee can reach writeIndex or an unlink), released on all exits; VisitMailboxes (both stores) invokes the visitor with no lock held")
 	r.Rule("C09/NIL/el", "every use of mem.Message.el as the argument of list.Remove is dominated by a non-nil test of the same load")
+	r.Rule("C09/NIL/front", "every use of a list.Front()/Back() result in the memory store (as a list argument or through .Value) is dominated by a non-nil test of it")
 	// what the size enforcer does to a message must be explainable by the operations issued: its
 	// byte account follows deliveries and removals exactly (decided by C08's enforcer rule);
 	// a drifting account evicts mail that nothing removed
@@ -262,6 +263,15 @@ func checkC09(c *Ctx) {
 	// is a set of removals by id of the messages it tested (decided by C12's scan rule): a
 	// bulk operation acts on whatever the mailbox holds later, which no sequential order of
 	// the visit and a concurrent delivery explains
+	// an operation that succeeded is visible: a delivery that already holds a mailbox entry must
+	// not find it dropped from the store's map by a concurrent operation (decided by C07's
+	// entries-persist rule)
+	nEP := c.borrow(func(c2 *Ctx) {
+		if sm := c2.stores(); sm.ok {
+			c2.c07Mem(sm)
+		}
+	}, "C07/ID/monotone/mem.Store.boxes:entries-persist", "C09/VISIBLE/entries-persist", "memory store: mailbox entries are never deleted or replaced, so a delivery racing a purge, a visit or a removal cannot file its message where no reader looks")
+	r.Floor("C09/VISIBLE/entries-persist", "borrowed obligations", nEP, 1)
 	nB := c.borrow(checkC12, "C12/GUARD/expired/scan-store-calls", "C09/RETENTION/by-id", "the retention visit changes the store only through RemoveMessage of the messages whose age it tested")
 	r.Floor("C09/RETENTION/by-id", "borrowed obligations", nB, 1)
 }
@@ -1587,6 +1597,161 @@ func (c *Ctx) c09El(pm *pairModel) {
 		})
 	}
 	r.Floor("C09/NIL/el", "uses of Message.el as a container/list argument", n, 1)
+	// the list can be empty although the byte account is over the limit: the account also holds
+	// the bytes of messages that were already taken out of their mailbox and whose removal notice
+	// has not arrived yet, and popping such a message subtracts nothing. Front()/Back() then
+	// return nil, and list.Remove(nil) or nil.Value kills the enforcer goroutine — and with it the
+	// process
+	nF := 0
+	ordF := map[string]int{}
+	for _, fn := range pkgFuncs(p, "pkg/storage/mem") {
+		fn := fn
+		eng.EachInstr(fn, func(in ssa.Instruction) {
+			call, ok := in.(*ssa.Call)
+			if !ok {
+				return
+			}
+			nm := eng.CalleeName(call.Common())
+			if nm != "(*container/list.List).Front" && nm != "(*container/list.List).Back" {
+				return
+			}
+			if call.Referrers() == nil {
+				return
+			}
+			nF++
+			cons := siteCons(p, in, ordF, "front")
+			bad := ""
+			for _, ref := range *call.Referrers() {
+				var at *ssa.BasicBlock
+				switch y := ref.(type) {
+				case *ssa.Call:
+					for _, a := range y.Call.Args {
+						if a == ssa.Value(call) && strings.HasPrefix(eng.CalleeName(y.Common()), "(*container/list.") {
+							at = y.Block()
+						}
+					}
+				case *ssa.FieldAddr:
+					at = y.Block()
+				}
+				if at == nil {
+					continue
+				}
+				if !eng.KnownNonNil(call, at) && !(len(call.Call.Args) > 0 && p.Lift(call, call.Call.Args[0], 0, listKnownNonEmpty)) {
+					bad = p.InstrPos(ref)
+				}
+			}
+			if bad != "" {
+				r.Bad("C09/NIL/front", cons, p.InstrPos(call), "the element returned by %s is used at %s without a nil test: the list can be empty while the byte account is still over the limit (messages already removed from their mailbox stay accounted until their removal notice arrives, and popping one subtracts nothing), so a delivery that overlaps a purge makes the enforcer dereference nil and the process dies", nm, bad)
+			} else {
+				r.Ok("C09/NIL/front", cons, p.InstrPos(call), "the element is tested non-nil before it is used")
+			}
+		})
+	}
+	r.Floor("C09/NIL/front", "list.Front()/Back() results in the memory store", nF, 1)
+}
+
+// listKnownNonEmpty: site is dominated by a branch edge on which lst.Len() is positive (same
+// list value), and nothing between that edge and site (within one pass of a loop) hands the list
+// to anything that could shrink it.
+func listKnownNonEmpty(site ssa.Instruction, lst ssa.Value) bool {
+	fn := site.Parent()
+	if fn == nil {
+		return false
+	}
+	isLenOf := func(v ssa.Value) bool {
+		cl, ok := eng.StripConv(v).(*ssa.Call)
+		return ok && eng.CalleeName(cl.Common()) == "(*container/list.List).Len" && len(cl.Call.Args) == 1 && cl.Call.Args[0] == lst
+	}
+	intConst := func(v ssa.Value) (int64, bool) {
+		k, ok := eng.StripConv(v).(*ssa.Const)
+		if !ok || k.Value == nil {
+			return 0, false
+		}
+		return k.Int64(), true
+	}
+	for _, b := range fn.Blocks {
+		if len(b.Succs) != 2 {
+			continue
+		}
+		for k := 0; k < 2; k++ {
+			rel, ok := eng.EdgeRel(b, k)
+			if !ok {
+				continue
+			}
+			if !isLenOf(rel.X) {
+				rel = rel.Swap()
+			}
+			if !isLenOf(rel.X) {
+				continue
+			}
+			n, isK := intConst(rel.Y)
+			if !isK {
+				continue
+			}
+			pos := (rel.Op == token.GTR && n >= 0) || (rel.Op == token.GEQ && n >= 1) || (rel.Op == token.NEQ && n == 0)
+			if !pos || !eng.EdgeDominates(b, k, site.Block()) {
+				continue
+			}
+			// the blocks of one pass from the edge to the site
+			fwd := map[*ssa.BasicBlock]bool{}
+			var walk func(x *ssa.BasicBlock)
+			walk = func(x *ssa.BasicBlock) {
+				if fwd[x] || x == b {
+					return
+				}
+				fwd[x] = true
+				if x == site.Block() {
+					return
+				}
+				for _, s := range x.Succs {
+					walk(s)
+				}
+			}
+			walk(b.Succs[k])
+			bwd := map[*ssa.BasicBlock]bool{}
+			var back func(x *ssa.BasicBlock)
+			back = func(x *ssa.BasicBlock) {
+				if bwd[x] || x == b {
+					return
+				}
+				bwd[x] = true
+				if x == b.Succs[k] {
+					return
+				}
+				for _, s := range x.Preds {
+					back(s)
+				}
+			}
+			back(site.Block())
+			clean := true
+			for x := range fwd {
+				if !bwd[x] {
+					continue
+				}
+				for _, in := range x.Instrs {
+					if in == site {
+						break
+					}
+					ci, isCall := in.(ssa.CallInstruction)
+					if !isCall {
+						continue
+					}
+					for _, a := range ci.Common().Args {
+						if a == lst {
+							nm := eng.CalleeName(ci.Common())
+							if nm != "(*container/list.List).Len" && nm != "(*container/list.List).Front" && nm != "(*container/list.List).Back" && !strings.HasPrefix(nm, "(*container/list.List).Push") {
+								clean = false
+							}
+						}
+					}
+				}
+			}
+			if clean {
+				return true
+			}
+		}
+	}
+	return false
 }
 
 // reachesNamed: fn is, or synchronously reaches, a function of its own package with that name.
